@@ -123,6 +123,7 @@ func init() {
 			return true
 		}, "verifDrain")
 		me.inDrain = false
+		m.hbBarrier()
 		return nil
 	})
 	reg(hpkg+"verifYield", func(m *Machine, _ *frame, _ token.Pos, _ *ssa.Function, a []Value) Value {
@@ -237,6 +238,8 @@ func init() {
 			m.block(func() bool { return !st.locked && st.readers == 0 }, "Mutex.Lock at "+m.posString(pos))
 		}
 		st.locked = true
+		m.hbAcquire(rwKey{p, false})
+		m.hbAcquire(rwKey{p, true})
 		return nil
 	}
 	unlock := func(m *Machine, fr *frame, pos token.Pos, _ *ssa.Function, a []Value) Value {
@@ -246,6 +249,7 @@ func init() {
 			panic(targetPanic{msg: "sync: unlock of unlocked mutex", pos: m.posString(pos)})
 		}
 		st.locked = false
+		m.hbRelease(rwKey{a[0].(*Value), false})
 		m.syncAfter(fr)
 		return nil
 	}
@@ -260,6 +264,8 @@ func init() {
 			return m.C.False()
 		}
 		st.locked = true
+		m.hbAcquire(rwKey{a[0].(*Value), false})
+		m.hbAcquire(rwKey{a[0].(*Value), true})
 		return m.C.True()
 	})
 	reg("(*sync.RWMutex).RLock", func(m *Machine, fr *frame, pos token.Pos, _ *ssa.Function, a []Value) Value {
@@ -269,6 +275,7 @@ func init() {
 			m.block(func() bool { return !st.locked }, "RWMutex.RLock at "+m.posString(pos))
 		}
 		st.readers++
+		m.hbAcquire(rwKey{a[0].(*Value), false})
 		return nil
 	})
 	reg("(*sync.RWMutex).RUnlock", func(m *Machine, fr *frame, pos token.Pos, _ *ssa.Function, a []Value) Value {
@@ -278,6 +285,7 @@ func init() {
 			panic(targetPanic{msg: "sync: RUnlock of unlocked RWMutex", pos: m.posString(pos)})
 		}
 		st.readers--
+		m.hbReleaseJoin(rwKey{a[0].(*Value), true})
 		m.syncAfter(fr)
 		return nil
 	})
@@ -290,14 +298,16 @@ func init() {
 			m.onces[p] = st
 		}
 		if st.done {
+			m.hbAcquire(onceKey{p})
 			return nil
 		}
 		if st.running {
 			m.block(func() bool { return st.done }, "Once.Do")
+			m.hbAcquire(onceKey{p})
 			return nil
 		}
 		st.running = true
-		defer func() { st.done = true; st.running = false }()
+		defer func() { st.done = true; st.running = false; m.hbRelease(onceKey{p}) }()
 		m.call(fr, pos, a[1], nil)
 		return nil
 	})
@@ -314,6 +324,7 @@ func init() {
 		m.syncPoint(fr)
 		st := m.wg(a[0].(*Value))
 		st.n--
+		m.hbReleaseJoin(wgKey{a[0].(*Value)})
 		if st.n < 0 {
 			panic(targetPanic{msg: "sync: negative WaitGroup counter", pos: m.posString(pos)})
 		}
@@ -326,6 +337,7 @@ func init() {
 		if st.n > 0 {
 			m.block(func() bool { return st.n == 0 }, "WaitGroup.Wait at "+m.posString(pos))
 		}
+		m.hbAcquire(wgKey{a[0].(*Value)})
 		return nil
 	})
 	reg("(*sync.Cond).Wait", func(m *Machine, fr *frame, pos token.Pos, fn *ssa.Function, a []Value) Value {
@@ -346,8 +358,11 @@ func init() {
 			panic(targetPanic{msg: "sync: unlock of unlocked mutex (Cond.Wait)", pos: m.posString(pos)})
 		}
 		mu.locked = false
+		m.hbRelease(rwKey{lp, false})
 		m.block(func() bool { return w.woken && !mu.locked && mu.readers == 0 }, "Cond.Wait at "+m.posString(pos))
 		mu.locked = true
+		m.hbAcquire(rwKey{lp, false})
+		m.hbAcquire(rwKey{lp, true})
 		return nil
 	})
 	reg("(*sync.Cond).Signal", func(m *Machine, fr *frame, pos token.Pos, _ *ssa.Function, a []Value) Value {
@@ -376,16 +391,19 @@ func init() {
 		base := "(*sync/atomic." + ty + ")."
 		reg(base+"Load", func(m *Machine, fr *frame, _ token.Pos, _ *ssa.Function, a []Value) Value {
 			m.syncPoint(fr)
+			m.hbAtomic(0, m.atomicCell(a[0]))
 			return *m.atomicCell(a[0])
 		})
 		reg(base+"Store", func(m *Machine, fr *frame, _ token.Pos, _ *ssa.Function, a []Value) Value {
 			m.syncPoint(fr)
+			m.hbAtomic(1, m.atomicCell(a[0]))
 			*m.atomicCell(a[0]) = a[1]
 			m.syncAfter(fr)
 			return nil
 		})
 		reg(base+"Add", func(m *Machine, fr *frame, _ token.Pos, _ *ssa.Function, a []Value) Value {
 			m.syncPoint(fr)
+			m.hbAtomic(2, m.atomicCell(a[0]))
 			c := m.atomicCell(a[0])
 			n := m.C.Bin(smt.OAdd, (*c).(*smt.Term), a[1].(*smt.Term))
 			*c = n
@@ -393,6 +411,7 @@ func init() {
 		})
 		reg(base+"Swap", func(m *Machine, fr *frame, _ token.Pos, _ *ssa.Function, a []Value) Value {
 			m.syncPoint(fr)
+			m.hbAtomic(2, m.atomicCell(a[0]))
 			c := m.atomicCell(a[0])
 			old := *c
 			*c = a[1]
@@ -400,6 +419,7 @@ func init() {
 		})
 		reg(base+"CompareAndSwap", func(m *Machine, fr *frame, _ token.Pos, _ *ssa.Function, a []Value) Value {
 			m.syncPoint(fr)
+			m.hbAtomic(2, m.atomicCell(a[0]))
 			c := m.atomicCell(a[0])
 			eq := m.C.Eq((*c).(*smt.Term), a[1].(*smt.Term))
 			if m.Branch(eq) {
@@ -411,17 +431,20 @@ func init() {
 	}
 	reg("(*sync/atomic.Bool).Load", func(m *Machine, fr *frame, _ token.Pos, _ *ssa.Function, a []Value) Value {
 		m.syncPoint(fr)
+		m.hbAtomic(0, m.atomicCell(a[0]))
 		v := (*m.atomicCell(a[0])).(*smt.Term)
 		return m.C.Not(m.C.Eq(v, m.C.BV(0, 32)))
 	})
 	reg("(*sync/atomic.Bool).Store", func(m *Machine, fr *frame, _ token.Pos, _ *ssa.Function, a []Value) Value {
 		m.syncPoint(fr)
+		m.hbAtomic(1, m.atomicCell(a[0]))
 		*m.atomicCell(a[0]) = m.C.Ite(a[1].(*smt.Term), m.C.BV(1, 32), m.C.BV(0, 32))
 		m.syncAfter(fr)
 		return nil
 	})
 	reg("(*sync/atomic.Bool).CompareAndSwap", func(m *Machine, fr *frame, _ token.Pos, _ *ssa.Function, a []Value) Value {
 		m.syncPoint(fr)
+		m.hbAtomic(2, m.atomicCell(a[0]))
 		c := m.atomicCell(a[0])
 		cur := m.C.Not(m.C.Eq((*c).(*smt.Term), m.C.BV(0, 32)))
 		if m.Branch(m.C.Eq(cur, a[1].(*smt.Term))) {
@@ -433,16 +456,19 @@ func init() {
 	// atomic.Pointer[T]: fields (_ [0]*T, _ noCopy, v unsafe.Pointer)
 	reg("(*sync/atomic.Pointer).Load", func(m *Machine, fr *frame, _ token.Pos, _ *ssa.Function, a []Value) Value {
 		m.syncPoint(fr)
+		m.hbAtomic(0, m.lastField(a[0]))
 		return *m.lastField(a[0])
 	})
 	reg("(*sync/atomic.Pointer).Store", func(m *Machine, fr *frame, _ token.Pos, _ *ssa.Function, a []Value) Value {
 		m.syncPoint(fr)
+		m.hbAtomic(1, m.lastField(a[0]))
 		*m.lastField(a[0]) = a[1]
 		m.syncAfter(fr)
 		return nil
 	})
 	reg("(*sync/atomic.Pointer).Swap", func(m *Machine, fr *frame, _ token.Pos, _ *ssa.Function, a []Value) Value {
 		m.syncPoint(fr)
+		m.hbAtomic(2, m.lastField(a[0]))
 		c := m.lastField(a[0])
 		old := *c
 		*c = a[1]
@@ -450,6 +476,7 @@ func init() {
 	})
 	reg("(*sync/atomic.Pointer).CompareAndSwap", func(m *Machine, fr *frame, pos token.Pos, _ *ssa.Function, a []Value) Value {
 		m.syncPoint(fr)
+		m.hbAtomic(2, m.lastField(a[0]))
 		c := m.lastField(a[0])
 		if m.equal(*c, a[1], pos).IsTrue() {
 			*c = a[2]
@@ -460,10 +487,12 @@ func init() {
 	// atomic.Value: field v any
 	reg("(*sync/atomic.Value).Load", func(m *Machine, fr *frame, _ token.Pos, _ *ssa.Function, a []Value) Value {
 		m.syncPoint(fr)
+		m.hbAtomic(0, m.lastField(a[0]))
 		return *m.lastField(a[0])
 	})
 	reg("(*sync/atomic.Value).Store", func(m *Machine, fr *frame, pos token.Pos, _ *ssa.Function, a []Value) Value {
 		m.syncPoint(fr)
+		m.hbAtomic(1, m.lastField(a[0]))
 		if a[1].(Iface).T == nil {
 			panic(targetPanic{msg: "sync/atomic: store of nil value into Value", pos: m.posString(pos)})
 		}
@@ -474,15 +503,18 @@ func init() {
 	for _, w := range []string{"Int32", "Uint32", "Int64", "Uint64"} {
 		reg("sync/atomic.Load"+w, func(m *Machine, fr *frame, _ token.Pos, _ *ssa.Function, a []Value) Value {
 			m.syncPoint(fr)
+			m.hbAtomic(0, a[0].(*Value))
 			return *(a[0].(*Value))
 		})
 		reg("sync/atomic.Store"+w, func(m *Machine, fr *frame, _ token.Pos, _ *ssa.Function, a []Value) Value {
 			m.syncPoint(fr)
+			m.hbAtomic(1, a[0].(*Value))
 			*(a[0].(*Value)) = a[1]
 			return nil
 		})
 		reg("sync/atomic.Add"+w, func(m *Machine, fr *frame, _ token.Pos, _ *ssa.Function, a []Value) Value {
 			m.syncPoint(fr)
+			m.hbAtomic(2, a[0].(*Value))
 			p := a[0].(*Value)
 			n := m.C.Bin(smt.OAdd, (*p).(*smt.Term), a[1].(*smt.Term))
 			*p = n
@@ -490,6 +522,7 @@ func init() {
 		})
 		reg("sync/atomic.CompareAndSwap"+w, func(m *Machine, fr *frame, _ token.Pos, _ *ssa.Function, a []Value) Value {
 			m.syncPoint(fr)
+			m.hbAtomic(2, a[0].(*Value))
 			p := a[0].(*Value)
 			if m.Branch(m.C.Eq((*p).(*smt.Term), a[1].(*smt.Term))) {
 				*p = a[2]
